@@ -26,7 +26,7 @@ ASSUMPTIONS = [
     "statistics 28-31 are taken in their implemented reading (step of two, intersected with records), see DESIGN §3",
 ]
 REQUIRED = ["named.checked", "listing.checked", "tools.distribution", "tools.preserved", "tools.transformed.nonempty", "tools.equidistributed",
-            "calls.Perm.count_inversions", "calls.Perm.holeyness", "calls.Perm.rtlmax_ltrmin_decomposition", "calls.Perm.cycle_decomp", "aliasing.mutated_results", "shortcuts.checked", "tool_faults.function_failed_once", "tool_faults.injected", "tools.class_with_empty_level_below_members", "tools.transformed_equidistributed", "tools.cancelling_pairs", "primes.history_checked", "long.perms"]
+            "calls.Perm.count_inversions", "calls.Perm.holeyness", "calls.Perm.rtlmax_ltrmin_decomposition", "calls.Perm.cycle_decomp", "aliasing.mutated_results", "shortcuts.checked", "tool_faults.function_failed_once", "tool_faults.injected", "tools.class_with_empty_level_below_members", "tools.transformed_equidistributed", "tools.cancelling_pairs", "primes.history_checked", "long.perms", "history.used_objects"]
 MIN_NONTRIVIAL = 3000
 CTX = None
 MON = None
@@ -212,6 +212,36 @@ def chk_method(ctx, name, p, extra):
         list(res)
 
 
+def chk_used_object(ctx, p, how):
+    """history: the SAME object has served other features first (as a search pattern, as a basis element, as the shared
+    result of the memoised standardisation, as a text) - its statistics are then judged by the monitors as always"""
+    P = Perm(p)
+    big = Perm(list(p) + [len(p)]) if how != "text" else Perm(p[:1])
+    if how == "pattern":
+        big.contains(P), list(P.occurrences_in(big)), P in big
+    elif how == "mesh":
+        from permuta import MeshPatt
+
+        M_ = MeshPatt(P, [(0, 0)])
+        M_ in big, list(M_.occurrences_in(big))
+    elif how == "basis":
+        from permuta import Av
+
+        Av([P, Perm(list(range(len(p) + 2)))]).count(min(len(p) + 1, 5))
+    elif how == "shared":
+        P = Perm.to_standard(list(p))
+        big.contains(P)
+    elif how == "text":
+        P.contains(big), big in P
+    for name in METHODS:
+        if name in ("holeyness", "fourpats", "threepats", "count_stack_sorts") and len(p) > 6:
+            continue
+        res = getattr(P, name)()
+        if name in GENERATORS:
+            list(res)
+    ctx.count("history.used_objects")
+
+
 def chk_perm(ctx, p):
     """every statistic / listing of one permutation + the named table + count-vs-listing"""
     P = Perm(p)
@@ -341,10 +371,13 @@ def make_bijection(spec):
 
 def chk_bijection(ctx, spec):
     bij = make_bijection(spec)
+    orig = dict(bij)  # the data as supplied: every expectation below is computed from this snapshot
     stats = [PermutationStatistic.get_by_index(i) for i in range(len(PermutationStatistic._STATISTICS))]
-    holds = {s.name: all(s.func(k) == s.func(v) for k, v in bij.items()) for s in stats}
+    holds = {s.name: all(s.func(k) == s.func(v) for k, v in orig.items()) for s in stats}
     got = list(PermutationStatistic.check_all_preservations(bij))
     ctx.ev()
+    if bij != orig or list(bij) != list(orig):
+        report("bijection", [list(spec)], f"check_all_preservations altered the bijection it was given ({len(orig)} pairs before, {len(bij)} after)")
     ctx.count("tools.preserved")
     if sorted(got) != sorted(n for n, h in holds.items() if h) or len(set(got)) != len(got):
         report("bijection", [list(spec)], f"check_all_preservations reports {sorted(got)}, identity holds for {sorted(n for n, h in holds.items() if h)}")
@@ -353,10 +386,12 @@ def chk_bijection(ctx, spec):
         if s.preserved_in(bij) is not holds[s.name]:
             report("bijection", [list(spec)], f"preserved_in for {s.name!r} = {s.preserved_in(bij)}, identity holds: {holds[s.name]}")
     tr = PermutationStatistic.check_all_transformed(bij)
+    if bij != orig:
+        report("bijection", [list(spec)], "check_all_transformed / preserved_in altered the bijection they were given")
     want = collections.defaultdict(list)
     for s1 in stats:
         for s2 in stats:
-            if all(s1.func(k) == s2.func(v) for k, v in bij.items()):
+            if all(s1.func(k) == s2.func(v) for k, v in orig.items()):
                 want[s1.name].append(s2.name)
     ctx.ev()
     if want:
@@ -553,7 +588,7 @@ def cancelling_pairs(rng, n, count):
     return out[:count]
 
 
-CHECKS = {"primes": chk_primes, "long": chk_long, "toolfault": chk_tool_fault, "shortcut": chk_shortcuts, "method": chk_method, "perm": chk_perm, "distribution": chk_distribution, "bijection": chk_bijection, "equi": chk_equidistributed}
+CHECKS = {"used": chk_used_object, "primes": chk_primes, "long": chk_long, "toolfault": chk_tool_fault, "shortcut": chk_shortcuts, "method": chk_method, "perm": chk_perm, "distribution": chk_distribution, "bijection": chk_bijection, "equi": chk_equidistributed}
 
 
 def plan(tier, seed):
@@ -573,6 +608,8 @@ def run(ctx, spec):
                 chk_perm(ctx, list(p))
                 if i % 5 == 0:
                     chk_shortcuts(ctx, list(p))
+                if i % 3 == 0 and p:
+                    chk_used_object(ctx, list(p), ("pattern", "mesh", "basis", "shared", "text")[(i // 3) % 5])
         ctx.note(f"exhaustive: all statistics on S_{spec['n']} part {spec['part']}/{spec['parts']}")
     elif spec["kind"] == "tools":
         part = spec["part"]
